@@ -1,15 +1,28 @@
-import RedisVerif.Lemmas.Redis
+import RedisVerif.Lemmas.RedisZOrder
 
 /-! Per-command lemmas, sorted sets. -/
 namespace RedisVerif.Redis
 open RedisVerif
 
-theorem inv_putZ {s : State} (h : Inv s) (k : Nat) (z : ZL) (dl : Option Nat) :
+theorem inv_putZ {s : State} (h : Inv s) (k : Nat) {z : ZL} (hz : ZCanon z) (dl : Option Nat) :
     Inv (putZ s k z dl) := by
   unfold putZ
   split
   · exact inv_erase h
-  · exact inv_insert h (by simp [ValueOk])
+  · exact inv_insert h ⟨by simp, hz⟩
+
+theorem lookupZ_canon {s : State} (h : Inv s) {k : Nat} {z : ZL} {dl : Option Nat}
+    (hl : lookupZ s k = .found z dl) : ZCanon z := by
+  unfold lookupZ at hl
+  split at hl
+  · cases hl
+  · rename_i e he
+    have hv := inv_get h he
+    obtain ⟨v, d⟩ := e
+    cases v <;> simp at hl
+    obtain ⟨h1, _⟩ := hl
+    subst h1
+    exact hv.2
 
 theorem inv_execZAdd {s : State} (h : Inv s) (k : Nat) (f : ZFlags) (ps : List (BS × Score)) :
     Inv (execZAdd s k f ps).1 := by
@@ -22,8 +35,9 @@ theorem inv_execZAdd {s : State} (h : Inv s) (k : Nat) (f : ZFlags) (ps : List (
       · exact h
       · split
         · exact h
-        · exact inv_putZ h ..
-      · exact inv_putZ h ..
+        · exact inv_putZ h k (canon_zaddAll canon_nil _) _
+      · rename_i hl
+        exact inv_putZ h k (canon_zaddAll (lookupZ_canon h hl) _) _
 
 theorem execZAdd_err {s : State} {k : Nat} {f : ZFlags} {ps : List (BS × Score)}
     (he : (execZAdd s k f ps).2.isError = true) : (execZAdd s k f ps).1 = s := by
@@ -44,7 +58,8 @@ theorem inv_execZRem {s : State} (h : Inv s) (k : Nat) (ms : List BS) : Inv (exe
   split
   · exact h
   · exact h
-  · exact inv_putZ h ..
+  · rename_i hl
+    exact inv_putZ h k (canon_zremAll (lookupZ_canon h hl) _) _
 
 theorem execZRem_err {s : State} {k : Nat} {ms : List BS}
     (he : (execZRem s k ms).2.isError = true) : (execZRem s k ms).1 = s := by
